@@ -286,7 +286,8 @@ def run_check(prop, tier, verif_seed, workers=None, n_override=None, repo=None, 
     wall = time.monotonic() - t_start
     # ---- reach probes: a probe stuck at zero fails the thorough check ---------------------
     unreached = []
-    if tier == "thorough" or spec.get("reach_in_quick"):
+    # (not enforced when the scenario count was overridden by hand: small batches miss rare probes)
+    if n_override is None:
         for name in spec.get("must_reach", []):
             got = stats["fired"].get(name, 0) + stats["probes"].get(name, 0)
             if got == 0:
